@@ -253,12 +253,13 @@ class LocalScheduleObject(CurrentPropertyListMixIn, ScheduleObject):
         # continue initialization
         ScheduleObject.__init__(self, **kwargs)
 
-        # attach an interpreter task
-        self._task = LocalScheduleInterpreter(self)
-
         # add some monitors to check the reliability if these change
         for prop in ('weeklySchedule', 'exceptionSchedule', 'scheduleDefault'):
             self._property_monitors[prop].append(self._check_reliability)
+
+        # attach an interpreter task, its monitors run after the reliability
+        # of the new configuration has been checked
+        self._task = LocalScheduleInterpreter(self)
 
         # check it now
         self._check_reliability()
